@@ -91,3 +91,18 @@ Theorem c06_replace_mask_end_to_end : forall ps text mask T, Forall is_bytes ps 
        (ncov m' j = true <-> exists s e, occurrence ps text s e /\ (s <= Z.of_nat (off cs j))%Z /\ (Z.of_nat (off cs (S j)) <= e)%Z)).
 Proof. exact mask_correct. Qed.
 Print Assumptions c06_replace_mask_end_to_end.
+
+(* Replace puts one copy of repl per merged interval (c06_replace_total: splicez).  Inside any region [a, b) there are at
+   most as many merged intervals as occurrences, and a maximal covered region contains at least one: between 1 and
+   (number of occurrences in the region) copies, none elsewhere (uncovered bytes are kept: c06_replace_keeps_uncovered) *)
+Theorem c06_copies_at_most : forall (sc m : list (Z * Z)) (a b : Z), disj m -> wf m -> wf sc ->
+  (forall x, In x m -> exists o, In o sc /\ inside o x) ->
+  length (filter (inR a b) m) <= length (filter (inR a b) sc).
+Proof. exact copies_at_most. Qed.
+Print Assumptions c06_copies_at_most.
+
+Theorem c06_copies_at_least_one : forall (sc m : list (Z * Z)) (a b : Z), wf m -> (forall i, covered m i <-> covered sc i) ->
+  (a < b)%Z -> (forall i, (a <= i < b)%Z -> covered sc i) -> ~ covered sc (a - 1)%Z -> ~ covered sc b ->
+  exists x, In x m /\ inR a b x = true.
+Proof. exact copies_at_least_one. Qed.
+Print Assumptions c06_copies_at_least_one.
